@@ -14,11 +14,11 @@ def sh(cmd, **kw):
     return subprocess.run(cmd, shell=True, stdout=subprocess.PIPE, stderr=subprocess.STDOUT, text=True, **kw)
 
 
-def imp(prop, src):
+def imp(prop, src, tag=""):
     for d in sorted(Path(src).glob("m*")):
         if not (d / "patch.diff").exists():
             continue
-        dst = SEED / f"{prop}-{d.name}"
+        dst = SEED / f"{prop}-{tag}{d.name}"
         dst.mkdir(parents=True, exist_ok=True)
         for f in d.iterdir():
             if f.is_file() and f.stat().st_size < 200000 and f.suffix in (".diff", ".c", ".json", ".h", ".sh", ".txt", ".gram", ".fsg", ".py"):
@@ -34,14 +34,19 @@ def imp(prop, src):
         print("imported", dst)
 
 
-def run(sid, tier="quick"):
+def run(sid, tier="quick", wt="/tmp/wt-seeded"):
+    """apply the change to a scratch worktree at /repo's HEAD and run the property's check against it
+    (VERIF_REPO=<worktree>), so that /repo itself and whatever else is running against it stay undisturbed;
+    evidence and generated files are restored / regenerated from /repo afterwards"""
     d = SEED / sid
     meta = json.loads((d / "meta.json").read_text())
     prop = meta["property"]
-    if sh("git -C /repo status --porcelain --untracked-files=no").stdout.strip():
-        sys.exit("refusing: /repo has uncommitted changes")
-    r = sh(f"git -C /repo apply {d/'patch.diff'} 2>&1")
-    applied = sh("git -C /repo status --porcelain --untracked-files=no").stdout.strip() != ""
+    head = sh("git -C /repo rev-parse HEAD").stdout.strip()
+    if not Path(wt).exists():
+        sh(f"git -C /repo worktree add --detach {wt} {head}")
+    sh(f"git -C {wt} checkout -q --detach {head}; git -C {wt} checkout -- .")
+    r = sh(f"git -C {wt} apply {d/'patch.diff'} 2>&1")
+    applied = r.returncode == 0
     out = ""
     ev = ROOT / "evidence" / f"{prop}.json"
     ev_saved = ev.read_text() if ev.exists() else None   # committed evidence must come from the unchanged tree
@@ -50,13 +55,16 @@ def run(sid, tier="quick"):
             meta["check_result"] = {"applies": False, "detail": r.stdout[-400:]}
         else:
             t0 = time.time()
-            c = sh(f"python3 tools/check.py {prop} --tier {tier}", cwd=ROOT)
+            import os
+            env = dict(os.environ, VERIF_REPO=wt)
+            c = subprocess.run(f"python3 tools/check.py {prop} --tier {tier}", shell=True, cwd=ROOT, env=env,
+                               stdout=subprocess.PIPE, stderr=subprocess.STDOUT, text=True)
             out = c.stdout
             viol = [l for l in out.split("\n") if l.startswith("VIOLATION")]
             meta["check_result"] = {"applies": True, "tier": tier, "exit": c.returncode, "caught": c.returncode == 1 and bool(viol),
                                     "violation_lines": viol[:3], "wall_s": round(time.time() - t0, 1),
-                                    "repo_head": sh("git -C /repo rev-parse --short HEAD").stdout.strip(),
-                                    "ran": f"git -C /repo apply seeded/{sid}/patch.diff; python3 tools/check.py {prop} --tier {tier}; git -C /repo checkout -- ."}
+                                    "repo_head": head[:7],
+                                    "ran": f"scratch worktree of /repo HEAD + seeded/{sid}/patch.diff; VERIF_REPO=<worktree> python3 tools/check.py {prop} --tier {tier} (equivalent to: git -C /repo apply <patch>; check; git -C /repo checkout -- .)"}
             if viol:
                 rp = viol[0].split("replay=")[1].split()[0]
                 try:
@@ -64,9 +72,10 @@ def run(sid, tier="quick"):
                 except Exception:
                     pass
     finally:
-        sh("git -C /repo reset -q; git -C /repo checkout -- .")
+        sh(f"git -C {wt} checkout -- .")
         if ev_saved is not None:
             ev.write_text(ev_saved)
+        sh(f"python3 tools/gen_consts.py {prop}", cwd=ROOT)   # generated files back to /repo's values
     (d / "meta.json").write_text(json.dumps(meta, indent=1))
     print(sid, meta["check_result"].get("caught"), meta["check_result"].get("violation_lines"))
     if not meta["check_result"].get("caught"):
@@ -114,7 +123,7 @@ def confirm(sid, wt="/tmp/wt-coord"):
 
 if __name__ == "__main__":
     if sys.argv[1] == "import":
-        imp(sys.argv[2], sys.argv[3])
+        imp(sys.argv[2], sys.argv[3], sys.argv[4] if len(sys.argv) > 4 else "")
     elif sys.argv[1] == "run":
         run(sys.argv[2], sys.argv[3] if len(sys.argv) > 3 else "quick")
     elif sys.argv[1] == "confirm":
